@@ -197,10 +197,17 @@ func (a *Address) Decode(lemoAddress string) error {
 	lemoAddress = strings.ToUpper(lemoAddress)
 	// Remove logo
 	address := []byte(lemoAddress)[len(logo):]
+	if !base26.IsValid(address) {
+		return ErrInvalidAddress
+	}
 	// Base26 decoding
 	fullPayload := base26.Decode(address)
 	// get the length of the address bytes type
 	length := len(fullPayload)
+	// address bytes and one check byte at most. A longer payload would be cropped silently
+	if length > AddressLength+1 {
+		return ErrInvalidAddress
+	}
 	if length == 0 {
 		// 0x0000000000000000000000000000000000000000
 		a.SetBytes(nil)
